@@ -654,6 +654,85 @@ theorem otsuHistN_first_empty (hist : List Nat) (edges : List Rat) (hn : 2 ≤ h
       simp [List.findIdx_cons, e0]
   rw [hfi, if_pos hpos]
 
+/-! ### the rescaling step: dividing the centres by a power of two does not move the argmax -/
+
+theorem cumsum_map_mul (c : Rat) (l : List Rat) : cumsum (l.map (c * ·)) = (cumsum l).map (c * ·) := by
+  induction l with
+  | nil => rfl
+  | cons a l ih =>
+    simp only [List.map_cons, cumsum, ih, List.map_map, List.cons.injEq, true_and]
+    apply List.map_congr_left
+    intro x _
+    simp only [Function.comp]
+    ring
+
+theorem zipWith_divN_scale (c : Rat) (l w : List Rat) :
+    List.zipWith divN (l.map (c * ·)) w = (List.zipWith divN l w).map (Option.map (c * ·)) := by
+  rw [List.zipWith_map_left, List.map_zipWith]
+  congr 1
+  funext a b
+  unfold divN
+  split
+  · rfl
+  · simp [mul_div_assoc]
+
+theorem subN_scale (c : Rat) (o1 o2 : Option Rat) :
+    subN (o1.map (c * ·)) (o2.map (c * ·)) = (subN o1 o2).map (c * ·) := by
+  cases o1 <;> cases o2 <;> simp [subN, mul_sub]
+
+/-- the criterion array of centres multiplied by `c` is the criterion array multiplied by `c²`, NaN where it was NaN -/
+theorem critListN_scale (c : Rat) (hist : List Nat) (cs : List Rat) :
+    critListN hist (cs.map (c * ·)) = (critListN hist cs).map (Option.map (c ^ 2 * ·)) := by
+  unfold critListN
+  simp only
+  generalize hist.map (fun (k : Nat) => (k : Rat)) = h
+  rw [zipWith_mul_scale, cumsum_map_mul, ← List.map_reverse, cumsum_map_mul, zipWith_divN_scale, zipWith_divN_scale,
+    ← List.map_reverse, ← List.map_tail]
+  generalize List.zipWith divN (cumsum (List.zipWith (· * ·) h cs)) (cumsum h) = u1
+  generalize (List.zipWith divN (cumsum (List.zipWith (· * ·) h cs).reverse) (cumsum h.reverse).reverse.reverse).reverse.tail = u2
+  generalize List.zipWith (· * ·) (cumsum h) (cumsum h.reverse).reverse.tail = ww
+  rw [List.zipWith_map, List.map_zipWith]
+  have e : List.zipWith (fun a b => subN (Option.map (fun x => c * x) a) (Option.map (fun x => c * x) b)) u1 u2
+      = (List.zipWith subN u1 u2).map (Option.map (c * ·)) := by
+    rw [List.map_zipWith]
+    congr 1
+    funext o1 o2
+    exact subN_scale c o1 o2
+  rw [e, List.zipWith_map_right]
+  congr 1
+  funext a d
+  cases d with
+  | none => rfl
+  | some d => simp only [Option.map_some]; congr 1; ring
+
+theorem findIdx_isNone_map (k : Rat) (l : List (Option Rat)) :
+    (l.map (Option.map (k * ·))).findIdx (·.isNone) = l.findIdx (·.isNone) := by
+  induction l with
+  | nil => rfl
+  | cons a l ih => cases a <;> simp [List.findIdx_cons, ih]
+
+theorem argmaxN_scale (k : Rat) (hk : 0 < k) (l : List (Option Rat)) :
+    argmaxN (l.map (Option.map (k * ·))) = argmaxN l := by
+  unfold argmaxN
+  rw [findIdx_isNone_map, List.length_map]
+  have : (l.map (Option.map (k * ·))).map (·.getD 0) = (l.map (·.getD 0)).map (k * ·) := by
+    rw [List.map_map, List.map_map]
+    apply List.map_congr_left
+    intro o _
+    cases o <;> simp
+  rw [this, argmaxFirst_scale k hk]
+
+theorem pow2_pos (k : Int) : 0 < pow2 k := by
+  unfold pow2
+  split <;> positivity
+
+/-- the code with its rescaling step returns what the plain criterion returns - for every histogram and all edges,
+on the NaN path as well -/
+theorem otsuHistS_eq (hist : List Nat) (edges : List Rat) : otsuHistS hist edges = otsuHistN hist edges := by
+  unfold otsuHistS otsuHistN scaledCentres
+  simp only
+  rw [critListN_scale, argmaxN_scale _ (by have := pow2_pos (-(scaleExp edges)); positivity)]
+
 /-! ### runs of empty bins -/
 
 theorem sumR_take_succ (l : List Rat) (k : Nat) : sumR (l.take (k + 1)) = sumR (l.take k) + l.getD k 0 := by
@@ -910,6 +989,7 @@ theorem otsuEdges_in_range (edges xs : List Rat) (n : Nat) (hn : 2 ≤ n) (he : 
     (hp : edges.Pairwise (· < ·)) :
     edges.getD 0 0 < otsuEdges edges xs ∧ otsuEdges edges xs < edges.getD n 0 := by
   unfold otsuEdges
+  rw [otsuHistS_eq]
   have hl : (histogramE edges xs).length = n := by rw [histogramE_length, he]; omega
   have := otsuHistN_in_range (histogramE edges xs) edges (by omega) (by omega) hp
   rwa [hl] at this
@@ -941,7 +1021,7 @@ theorem otsuEdges_scale (c : Rat) (hc : 0 < c) (edges xs : List Rat) (n : Nat) (
   have hl : (histogramE edges xs).length = n := by rw [histogramE_length, he]; omega
   have he' : edges.length = (histogramE edges xs).length + 1 := by omega
   unfold otsuEdges
-  rw [histogramE_scale c hc]
+  rw [histogramE_scale c hc, otsuHistS_eq, otsuHistS_eq]
   rw [otsuHistN_eq _ _ (by simpa using he') g0 (by rw [hl]; exact g1),
     otsuHistN_eq _ _ he' g0 (by rw [hl]; exact g1)]
   exact otsuHist_scale c hc _ edges he'
@@ -1057,7 +1137,7 @@ theorem otsuArr_false_map_some (ys : List Rat) (hne : ys ≠ []) (n : Nat) :
   unfold otsuArr
   simp only [Bool.false_eq_true, if_false]
   rw [histogramN_map_some ys hne]
-  rfl
+  simp only [Option.map_some, otsuHistS_eq]
 
 theorem ne_nil_of_min_lt_max (ys : List Rat) (h : minL ys < maxL ys) : ys ≠ [] := by
   intro h0; subst h0; simp [minL, maxL] at h
